@@ -98,6 +98,10 @@ SPECIAL_DOCS = [
     ["L\tx\t+\ty\t-\t*", "P\tx\ty+\t*", "S\ty\t*"],
     ["C\tx\t+\ty\t-\t0\t*", "L\ty\t+\ty\t-\t*\tID:Z:x"],
     ["G\tg\tx+\ty-\t5\t*", "E\tx\ty+\ty-\t0\t1\t0\t1\t*", "S\tx\t4\t*"],
+    # identifiers of L/C lines given with another datatype
+    ["S\ta\t*", "S\tb\t*", "L\ta\t+\tb\t+\t*\tID:J:[1]"],
+    ["S\ta\t*", "S\tb\t*", "C\ta\t+\tb\t+\t0\t*\tID:J:{\"a\":1}", "L\ta\t+\tb\t-\t*\tID:B:i,1,2"],
+    ["S\ta\t*", "L\ta\t+\ta\t+\t*\tID:f:1.5", "L\ta\t+\ta\t-\t*\tID:i:5", "P\t5\ta+\t*", "L\ta\t-\ta\t+\t*\tID:H:0A"],
     # over-long records: JSON nested deeper than the interpreter's recursion limit
     ["S\ta\t*\txx:J:" + "[" * 30000 + "]" * 30000],
     ["H\txx:J:" + '{"a":' * 20000 + "1" + "}" * 20000],
